@@ -488,7 +488,7 @@ func (c16) RunCase(c fw.Case, env *fw.Env) *fw.CaseResult {
 		"PA": {Name: "pa", MaxCollections: 2, MaxCollectionPointCount: 40, MaxPointSize: 2048},
 		"PB": {Name: "pb", MaxCollections: 3, MaxCollectionPointCount: 45, MaxPointSize: 2048},
 	}
-	nodes, err := httpx.StartCluster(env.Dir, c.Int("nodes", 1), httpx.Options{Plans: plans, MaxShardPointCount: 15, ShardTimeout: 1})
+	nodes, err := httpx.StartCluster(env.Dir, c.Int("nodes", 1), httpx.Options{Plans: plans, MaxShardPointCount: 15, ShardTimeout: 1, MaxCacheSize: []int64{0, 20000, 1 << 30}[c.Idx%3]})
 	if err != nil {
 		res.Note("cluster: %v", err)
 		res.Inconclusive++
